@@ -2,6 +2,7 @@ package noiseh
 
 import (
 	"bytes"
+	"errors"
 	"fmt"
 	"testing"
 
@@ -38,6 +39,50 @@ func newStreamChecker(r *ev.Run, label string, w, rd *mailbox.Machine, markers [
 func (s *streamChecker) fail(key, what string) {
 	s.failed = true
 	s.r.Violation(key, fmt.Sprintf("%s, record #%d: %s", s.label, s.n, what), map[string]any{"stream": s.label, "record": s.n})
+}
+
+// sendWithRefusedWrite writes one record over a transport that times out
+// after a few bytes; while the record is pending another write is attempted
+// (it must be refused and must leave the cipher state alone); then the record
+// is flushed and the peer reads it.
+func (s *streamChecker) sendWithRefusedWrite(msg []byte, accept int) {
+	if s.failed {
+		return
+	}
+	if err := s.w.WriteMessage(msg); err != nil {
+		s.fail("write-fails", err.Error())
+		return
+	}
+	snk := &sink{budgets: []int{accept}}
+	if _, err := s.w.Flush(snk); err == nil {
+		s.fail("partial-flush", "the scripted transport timeout did not surface")
+		return
+	}
+	pending := s.w.VerifSend()
+	err := s.w.WriteMessage([]byte("refused"))
+	if !errors.Is(err, mailbox.ErrMessageNotFlushed) {
+		s.fail("new-record-while-pending", fmt.Sprintf("WriteMessage returned %v while a record was pending", err))
+		return
+	}
+	if now := s.w.VerifSend(); now != pending {
+		s.fail("refused-write-advances-cipher",
+			fmt.Sprintf("a WriteMessage that was refused (ErrMessageNotFlushed) moved the send cipher from nonce %d to nonce %d: the peer will not be able to decrypt what follows", pending.Nonce, now.Nonce))
+		return
+	}
+	for k := 0; k < 4; k++ {
+		if _, err := s.w.Flush(snk); err == nil {
+			break
+		} else if k == 3 {
+			s.fail("flush-fails", err.Error())
+			return
+		}
+	}
+	got, err := s.rd.ReadMessage(bytes.NewReader(snk.buf.Bytes()))
+	if err != nil || !bytes.Equal(got, msg) {
+		s.fail("decrypt", fmt.Sprintf("the record flushed after a refused write does not decrypt: %v", err))
+		return
+	}
+	s.n++
 }
 
 // send writes one record and has the peer read it.
@@ -246,6 +291,25 @@ func TestC08(t *testing.T) {
 					}
 				}
 				records += int64(ab.n + ba.n)
+				patterns++
+			}
+		}
+	}
+	// a write attempted (and refused) while a record is pending, at
+	// several positions relative to a rotation boundary
+	for _, c := range cfgs {
+		for _, pos := range []int{0, 3, perRot - 2, perRot - 1, perRot} {
+			for _, accept := range []int{0, 5, 18, 20, 30} {
+				a, b := fresh(c)
+				ab := newStreamChecker(r, fmt.Sprintf("%v refused write after %d records, transport accepts %d bytes", c, pos, accept), a, b, markers)
+				for i := 0; i < pos; i++ {
+					ab.send(msgOf('p', i, 9))
+				}
+				ab.sendWithRefusedWrite(msgOf('q', 0, 9), accept)
+				for i := 0; i < 3; i++ {
+					ab.send(msgOf('r', i, 9))
+				}
+				records += int64(ab.n)
 				patterns++
 			}
 		}
